@@ -75,7 +75,12 @@ impl<'a> PerTypeLookup<'a> {
 			},
 		}
 		let mut per_direct_union_variant = [NoneSomeOrConflict::None; N_VARIANTS];
-		let per_name = std::cell::RefCell::new(HashMap::new());
+		// Names are registered with a priority (lowest wins), so that e.g. the short name of
+		// `a.R` can't shadow the full name of another variant `R`. Two registrations of the
+		// same name with the same priority are ambiguous, so looking up that name yields nothing.
+		let per_name: std::cell::RefCell<
+			HashMap<Cow<'static, str>, (usize, Option<(i64, NodeRef<'a>)>)>,
+		> = std::cell::RefCell::new(HashMap::new());
 		for (discriminant, &schema_node) in variants.iter().enumerate() {
 			let discriminant: i64 = discriminant
 				.try_into()
@@ -121,22 +126,35 @@ impl<'a> PerTypeLookup<'a> {
 					}
 				}
 			};
+			let register_name_with_priority = |name: Cow<'static, str>, priority: usize| {
+				match per_name.borrow_mut().entry(name) {
+					std::collections::hash_map::Entry::Vacant(entry) => {
+						entry.insert((priority, Some((discriminant, schema_node))));
+					}
+					std::collections::hash_map::Entry::Occupied(mut entry) => {
+						let (old_priority, val) = entry.get_mut();
+						match (*old_priority).cmp(&priority) {
+							Ordering::Less => {}
+							Ordering::Equal => *val = None,
+							Ordering::Greater => {
+								*old_priority = priority;
+								*val = Some((discriminant, schema_node));
+							}
+						}
+					}
+				}
+			};
 			let register_name = |name: &Name| {
-				let mut per_name = per_name.borrow_mut();
-				per_name.insert(
-					Cow::Owned(name.name().to_owned()),
-					(discriminant, schema_node),
-				);
-				per_name.insert(
+				register_name_with_priority(
 					Cow::Owned(name.fully_qualified_name().to_owned()),
-					(discriminant, schema_node),
+					0,
 				);
+				if name.name() != name.fully_qualified_name() {
+					register_name_with_priority(Cow::Owned(name.name().to_owned()), 2);
+				}
 			};
-			let register_type_name = |type_name: &'static str| {
-				per_name
-					.borrow_mut()
-					.insert(Cow::Borrowed(type_name), (discriminant, schema_node));
-			};
+			let register_type_name =
+				|type_name: &'static str| register_name_with_priority(Cow::Borrowed(type_name), 1);
 			// Note that the following list is very coupled with the serializer:
 			// every `UnionVariantLookupKey` corresponds to one (or more) function
 			// of `Serializer`, and every `register` call corresponds to a capability
@@ -222,12 +240,13 @@ impl<'a> PerTypeLookup<'a> {
 					register(UnionVariantLookupKey::SeqOrTupleOrTupleStruct, 2);
 				}
 				SchemaNode::Decimal(Decimal { repr, .. }) => {
-					register_type_name("Decimal");
 					match repr {
 						DecimalRepr::Fixed(fixed) => {
+							// It is primarily known under the name of its `fixed`
 							register_name(&fixed.name);
+							register_name_with_priority(Cow::Borrowed("Decimal"), 3);
 						}
-						DecimalRepr::Bytes => {}
+						DecimalRepr::Bytes => register_type_name("Decimal"),
 					}
 					register(UnionVariantLookupKey::Integer, 5);
 					register(UnionVariantLookupKey::Integer4, 5);
@@ -298,7 +317,11 @@ impl<'a> PerTypeLookup<'a> {
 			NoneSomeOrConflict::Conflict { .. } => None,
 		});
 		PerTypeLookup {
-			per_name: per_name.into_inner(),
+			per_name: per_name
+				.into_inner()
+				.into_iter()
+				.filter_map(|(name, (_, val))| val.map(|val| (name, val)))
+				.collect(),
 			per_direct_union_variant,
 		}
 	}
